@@ -27,13 +27,23 @@ use vkit::{Args, Evidence, Outcome, RunCfg};
 
 #[derive(Debug, Clone, Serialize, Deserialize)]
 pub struct Case {
+    /// number of event loops (1 or 2); tasks are dispatched round-robin
+    #[serde(default)]
+    pub loops: u8,
     pub tasks: u8,
     /// (target index, delay after its last parked event in units of 0.5 ms)
     pub writes: Vec<(u8, u8)>,
+    /// number of SIGUSR1 (no-op handler, no SA_RESTART) delivered to every event-loop thread
+    /// before write k, so that a blocking poll of the loop is interrupted (EINTR); missing = 0
+    #[serde(default)]
+    pub signals: Vec<u8>,
 }
 
 pub fn strategy() -> impl Strategy<Value = Case> {
-    (1u8..=4, proptest::collection::vec((0u8..4, 2u8..12), 1..4)).prop_map(|(tasks, writes)| Case { tasks, writes })
+    (1u8..=2, 1u8..=4, proptest::collection::vec(((0u8..4, 2u8..12), prop_oneof![3 => Just(0u8), 2 => 1u8..4]), 1..4)).prop_map(|(loops, tasks, w)| {
+        let (writes, signals): (Vec<(u8, u8)>, Vec<u8>) = w.into_iter().unzip();
+        Case { loops, tasks, writes, signals }
+    })
 }
 
 #[derive(Debug, Clone, Copy)]
@@ -61,6 +71,7 @@ pub fn child_main() -> i32 {
     let n = case.tasks.clamp(1, 4) as usize;
     let mut cfg = Config::single();
     cfg.set_hook(false);
+    cfg.set_event_loop_size(case.loops.clamp(1, 2) as usize);
     EventLoops::init(&cfg);
     open_coroutine_core::verif::set_handler(Some(handler));
     let mut pairs: Vec<(c_int, c_int)> = vec![];
@@ -71,15 +82,24 @@ pub fn child_main() -> i32 {
         }
         pairs.push((p[0], p[1]));
     }
+    extern "C" fn noop(_: c_int) {}
+    unsafe {
+        let mut sa: libc::sigaction = std::mem::zeroed();
+        sa.sa_sigaction = noop as usize;
+        sa.sa_flags = 0;
+        libc::sigaction(libc::SIGUSR1, &sa, std::ptr::null_mut());
+    }
+    let threads: Arc<Vec<AtomicU64>> = Arc::new((0..n).map(|_| AtomicU64::new(0)).collect());
     let ids: Arc<Vec<AtomicU64>> = Arc::new((0..n).map(|_| AtomicU64::new(0)).collect());
     let got: Arc<Vec<AtomicU64>> = Arc::new((0..n).map(|_| AtomicU64::new(0)).collect());
     let mut handles = vec![];
     for i in 0..n {
-        let (ids, got) = (ids.clone(), got.clone());
+        let (ids, got, threads) = (ids.clone(), got.clone(), threads.clone());
         let fd = pairs[i].0;
         handles.push(EventLoops::submit_task(
             Some(format!("c20-task-{i}")),
             move |_| {
+                threads[i].store(unsafe { libc::pthread_self() } as u64, Ordering::SeqCst);
                 ids[i].store(SchedulableCoroutine::current().map_or(0, |c| c.id()), Ordering::SeqCst);
                 loop {
                     let mut b = [0u8; 1];
@@ -117,8 +137,22 @@ pub fn child_main() -> i32 {
     }
     let mut writes = vec![];
     let mut written = vec![false; n];
-    for (ti, d) in &case.writes {
+    let mut signalled = 0u32;
+    for (wk, (ti, d)) in case.writes.iter().enumerate() {
         let ti = *ti as usize % n;
+        let nsig = case.signals.get(wk).copied().unwrap_or(0).min(5);
+        if nsig > 0 {
+            let loop_threads: std::collections::BTreeSet<u64> = threads.iter().map(|t| t.load(Ordering::SeqCst)).filter(|t| *t != 0).collect();
+            for _ in 0..nsig {
+                for t in &loop_threads {
+                    unsafe {
+                        libc::pthread_kill(*t as libc::pthread_t, libc::SIGUSR1);
+                    }
+                    signalled += 1;
+                }
+                std::thread::sleep(Duration::from_millis(3));
+            }
+        }
         let id = ids[ti].load(Ordering::SeqCst);
         let before = got[ti].load(Ordering::SeqCst);
         // wait for a fresh "parked" event of the target, then delay
@@ -160,7 +194,7 @@ pub fn child_main() -> i32 {
     open_coroutine_core::verif::set_handler(None);
     let evs: Vec<serde_json::Value> = EVENTS.lock().unwrap().iter().map(|e| json!([e.at.to_string(), e.kind, e.a.to_string(), e.b])).collect();
     let idv: Vec<String> = (0..n).map(|i| ids[i].load(Ordering::SeqCst).to_string()).collect();
-    child::emit(json!({"ev":"result","ids":idv,"writes":writes,"written":written,"events":evs}));
+    child::emit(json!({"ev":"result","ids":idv,"writes":writes,"written":written,"events":evs,"signalled":signalled}));
     // the tasks are still blocked in recv: leave without tearing the runtime down
     let _ = handles;
     unsafe { libc::_exit(0) }
@@ -170,7 +204,14 @@ fn u(v: &serde_json::Value) -> u64 {
     v.as_str().and_then(|s| s.parse().ok()).unwrap_or(0)
 }
 
+/// Every C20 signature depends on where the harness's write lands relative to the loop
+/// thread's wait slice, so each deviation is confirmed by three immediate re-executions in
+/// fresh children (DESIGN.md §2.5); a defect in the token path deviates every time.
 pub fn exec(c: &Case) -> Outcome {
+    vkit::timing::confirm_repeat(exec_once(c), |_| true, || exec_once(c), 3)
+}
+
+pub fn exec_once(c: &Case) -> Outcome {
     let js = serde_json::to_string(c).unwrap();
     let r = child::run_child(&ChildSpec { args: vec!["C20child".into()], stdin: &js, timeout: Duration::from_secs(30), env: vec![] });
     let mut o = Outcome::pass();
@@ -266,7 +307,7 @@ pub fn exec(c: &Case) -> Outcome {
         o.excluded = Some("timing-window-missed");
     }
     o.nontrivial = judged >= 1 && n >= 2;
-    o.class_if(n >= 2, "2+waiters-parked").class_if(judged >= 2, "2+writes-judged")
+    o.class_if(n >= 2, "2+waiters-parked").class_if(judged >= 2, "2+writes-judged").class_if(c.loops >= 2, "2-event-loops").class_if(res["signalled"].as_u64().unwrap_or(0) > 0, "loop-poll-interrupted-by-signal")
 }
 
 pub fn main(args: &Args) -> i32 {
@@ -276,7 +317,7 @@ pub fn main(args: &Args) -> i32 {
     }
     let mut ev = Evidence::new("C20", args, "exploration");
     ev.assume("a write is judged only if it demonstrably landed inside the target's current 10 ms wait slice (between 1 and 8 ms after its last 'parked' event, no newer parking before the write)");
-    ev.assume("one event loop, tasks on their own AF_UNIX socketpairs");
+    ev.assume("one or two event loops, tasks on their own AF_UNIX socketpairs; a deviation counts only if it repeats in 3 of 3 fresh re-executions of the same case");
     ev.add(vkit::run_regress("C20", |_s, case| exec(&serde_json::from_value(case).expect("case"))));
     if ev.has_violations() {
         return ev.finish();
@@ -285,10 +326,10 @@ pub fn main(args: &Args) -> i32 {
         &RunCfg {
             property: "C20",
             sub: "readiness",
-            rule: "fresh child per case: 1..4 tasks blocked in hooked recv on own socketpairs, 1..3 writes to generated targets 1..6 ms after the target parked; non-trivial = >=2 waiters parked and >=1 write judged",
+            rule: "fresh child per case: 1..2 event loops, 1..4 tasks blocked in hooked recv on own socketpairs, 1..3 writes to generated targets 1..6 ms after the target parked, optionally preceded by 1..3 no-op signals to every event-loop thread (interrupting its poll); non-trivial = >=2 waiters parked and >=1 write judged",
             seed: args.seed,
-            cases: args.cases(100, 3_000),
-            shards: 4,
+            cases: args.cases(600, 6_000),
+            shards: 8,
             max_shrink_iters: 60,
         },
         strategy,
